@@ -102,6 +102,7 @@ impl<'a> World<'a> {
         drop(cache);
         self.learn_objects(x);
         self.check_replica(x, "sync");
+        self.check_list(x);
         self.check_pairwise();
     }
 
